@@ -672,6 +672,10 @@ func (db *ContractDB) ParseContracts(file string, lines []string, lineNos []int,
 			if word == "assume" {
 				gu.Assume = true
 				gu.When = "after"
+				if strings.HasPrefix(rest, "before ") {
+					// "assume before @anchor: P": a fact about the arguments, assumed before the call's preconditions are checked
+					gu.When = "before"
+				}
 			}
 			curF.Asserts = append(curF.Asserts, gu)
 		case "fn":
